@@ -137,8 +137,8 @@ func driveMain(fs *flag.FlagSet, args []string) {
 				for k, v := range o.Hashes {
 					if rv, ok := ref[k]; ok {
 						nchk++
-						if rv != v {
-							die2("determinism check failed: run %s of %s has trace %s in one process and %s in another", k, p.ID, rv, v)
+						if rv != v && detMismatch == "" {
+							detMismatch = fmt.Sprintf("determinism check failed: run %s of %s has trace %s in one process and %s in another", k, p.ID, rv, v)
 						}
 					}
 				}
@@ -263,6 +263,17 @@ func driveMain(fs *flag.FlagSet, args []string) {
 		}
 	}
 
+	if detMismatch != "" {
+		// A run that is not a pure function of its tape.  When violations were
+		// found they are reported (state leaking between runs inside the code
+		// under test shows up as both); without any violation this is harness
+		// trouble, never a VIOLATION.
+		if exit == 0 {
+			die2("%s", detMismatch)
+		}
+		fmt.Fprintf(os.Stderr, "note: %s (reported together with the violations above; process-global state in the code under test makes runs depend on what ran before them)\n", detMismatch)
+	}
+
 	// known findings: one line per listed finding
 	knownOut := []map[string]interface{}{}
 	for i, f := range findings {
@@ -305,7 +316,7 @@ func driveMain(fs *flag.FlagSet, args []string) {
 		"faults_fired":        tot.Faults,
 		"probes":              tot.Probes,
 		"counters":            tot.Stats,
-		"determinism_check":   map[string]interface{}{"runs_reexecuted_in_other_processes": detChecked, "mismatches": 0},
+		"determinism_check":   map[string]interface{}{"runs_reexecuted_in_other_processes": detChecked, "mismatch": detMismatch},
 		"components":          p.Components,
 		"workers":             *W,
 		"exhaustive":          false,
@@ -349,6 +360,7 @@ func driveMain(fs *flag.FlagSet, args []string) {
 }
 
 var detChecked int
+var detMismatch string
 
 // propProbes lists, per property, the probes that a healthy run must hit.
 var propProbes = map[string][]string{}
